@@ -430,3 +430,19 @@ def partitions(slots):
         yield {}
         return
     yield from rec(1, [0], 0)
+
+
+def var_partitions(shape, limit=300):
+    """equality patterns of the shape's identifier *variables* (tie groups), as slot -> class dicts;
+    at most `limit` of them (restricted-growth order: all-equal first, all-distinct last is NOT guaranteed
+    under the cap, so the all-distinct pattern is always appended)"""
+    n = len(shape.groups)
+    out = []
+    for i, part in enumerate(partitions(range(n))):
+        if i >= limit:
+            break
+        out.append({s: part[shape.var_of[s]] for s in shape.slots})
+    distinct = {s: shape.var_of[s] for s in shape.slots}
+    if distinct not in out:
+        out.append(distinct)
+    return out
